@@ -1,6 +1,24 @@
-"""T (C04): constants of the three receive loops  ->  lean/PyIpmi/Gen/Loops04.lean
+"""T (C04): shape and constants of the three receive loops  ->  lean/PyIpmi/Gen/Loops04.lean
 
-AST extraction from pyipmi/interfaces/{rmcp,ipmbdev,aardvark}.py of the working tree:
+AST extraction from pyipmi/interfaces/{rmcp,ipmbdev,aardvark}.py of the working tree.
+
+1. SHAPE.  The five functions that make up the loops (`Rmcp._send_and_receive`,
+   `IpmbDev._send_and_receive`, `IpmbDev._receive_raw`, `Aardvark._send_and_receive`,
+   `Aardvark._receive_raw`) are written out statement by statement in the tiny abstract syntax of
+   lean/PyIpmi/Model/LoopAst.lean (class `Shape` below): order and nesting of the statements, every
+   test / assignment / call with its arguments, break / continue / raise / return / assert, the except
+   clauses.  Local variables are numbered (parameters, then first assignment in source order), so
+   renaming one is invisible; docstrings, comments, exception messages and the text of log().debug(...)
+   calls are dropped (the subscripts a log call evaluates are kept).  Nothing is recognised or
+   interpreted here: the translation is syntax-directed, and whatever is outside the grammar becomes
+   `.other <crc32 of ast.dump>`.  `Props.C04.source_shape_{rmcp,ipmbdev,aardvark}` compare the result
+   with the values the hand-written step functions document (`Loops.Shape.*`): where the sequence number
+   is advanced relative to building the header and to the retry loop, retry loop > send > receive loop,
+   what each exit does, what is assigned to the returned variable and when, `_q.get` before the socket
+   and no `_q.put`.  This part never raises: a changed loop yields a different value and the theorem
+   stops building.
+
+2. CONSTANTS, as before:
 
   * `_inc_sequence_number`:  self.next_sequence_number = (self.next_sequence_number + I) % M
   * initial `next_sequence_number`, default / fixed `max_retries`, `timeout` (as 1/64 s ticks)
@@ -8,10 +26,14 @@ AST extraction from pyipmi/interfaces/{rmcp,ipmbdev,aardvark}.py of the working 
   * the Send Message command id the bridged branch tests for (`constants.CMDID_SEND_MESSAGE`)
   * the byte index tested against it and the bounds of the returned slice `rx_data[a:-b]`
 
-Fails closed: any other shape raises TieBroken.
+Fails closed: a constant that cannot be read keeps the value of the pinned source (so that the models still
+build and the correspondence run shows where the changed code differs), `notExtracted` counts them
+(`Props.C04.gen_loop_shape` demands 0) and TieBroken is raised AFTER the file has been written, so the shape
+part is fresh in any case.  Counters and the received-frame variable are found by position, not by name.
 """
 import ast
 import os
+import zlib
 from fractions import Fraction
 
 from ..lib import lean, repo
@@ -65,22 +87,6 @@ def _seq_rule(cls, rel):
     return inc, mod
 
 
-def _uses_seq(cls, rel):
-    """`_send_and_receive` must call self._inc_sequence_number() and put
-    self.next_sequence_number into header.rq_seq."""
-    f = _fn(cls, '_send_and_receive', rel)
-    calls = [n for n in ast.walk(f) if isinstance(n, ast.Call) and _is_self_attr(n.func, '_inc_sequence_number')]
-    assigns = [n for n in ast.walk(f) if isinstance(n, ast.Assign) and len(n.targets) == 1
-               and isinstance(n.targets[0], ast.Attribute) and n.targets[0].attr == 'rq_seq'
-               and _is_self_attr(n.value, 'next_sequence_number')]
-    if len(calls) != 1 or len(assigns) != 1:
-        raise TieBroken('%s:%s._send_and_receive: sequence number is not incremented once and used as rq_seq'
-                        % (rel, cls.name))
-    if f.body.index(next(s for s in f.body if calls[0] in ast.walk(s))) > \
-            f.body.index(next(s for s in f.body if assigns[0] in ast.walk(s))):
-        raise TieBroken('%s:%s._send_and_receive: rq_seq is read before the increment' % (rel, cls.name))
-
-
 def _init_assign(cls, attr, rel):
     f = _fn(cls, '__init__', rel)
     hits = [n for n in ast.walk(f) if isinstance(n, ast.Assign) and len(n.targets) == 1
@@ -101,26 +107,41 @@ def _init_default(cls, arg, rel):
     return _const(f.args.defaults[i], '%s default' % arg)
 
 
-def _loop_extra(fn, var, rel):
-    """`while <var> OP self.max_retries` (possibly `and`-ed with other tests): 1 for <=, 0 for <."""
-    found = []
-    for n in ast.walk(fn):
-        if not isinstance(n, ast.While):
-            continue
+def _loop_extras(fn, want, rel):
+    """The `while <counter> OP self.max_retries` loops of fn (possibly `and`-ed with other tests), outermost
+    first, whatever the counter is called: 1 for `<=` (budget max_retries + 1), 0 for `<` (max_retries).
+    Exactly `want` of them, each nested in the one before."""
+    def bound(n):
         tests = n.test.values if isinstance(n.test, ast.BoolOp) and isinstance(n.test.op, ast.And) else [n.test]
+        hits = []
         for t in tests:
-            if (isinstance(t, ast.Compare) and isinstance(t.left, ast.Name) and t.left.id == var
-                    and len(t.ops) == 1 and _is_self_attr(t.comparators[0], 'max_retries')):
+            if (isinstance(t, ast.Compare) and isinstance(t.left, ast.Name) and len(t.ops) == 1
+                    and _is_self_attr(t.comparators[0], 'max_retries')):
                 if isinstance(t.ops[0], ast.LtE):
-                    found.append(1)
+                    hits.append(1)
                 elif isinstance(t.ops[0], ast.Lt):
-                    found.append(0)
+                    hits.append(0)
                 else:
-                    raise TieBroken('%s:%s: loop on %s uses an unexpected comparison' % (rel, fn.name, var))
-    if len(found) != 1:
-        raise TieBroken('%s:%s: expected exactly one `while %s <(=) self.max_retries`, found %d'
-                        % (rel, fn.name, var, len(found)))
-    return found[0]
+                    raise TieBroken('%s:%s: a loop bounded by self.max_retries uses an unexpected comparison'
+                                    % (rel, fn.name))
+        if len(hits) > 1:
+            raise TieBroken('%s:%s: a loop tests self.max_retries twice' % (rel, fn.name))
+        return hits[0] if hits else None
+
+    found, scope = [], fn
+    while True:
+        loops = [n for n in ast.walk(scope) if isinstance(n, ast.While) and n is not scope and bound(n) is not None]
+        top = [n for n in loops if not any(n is not m and n in ast.walk(m) for m in loops)]
+        if not top:
+            break
+        if len(top) != 1:
+            raise TieBroken('%s:%s: %d loops bounded by self.max_retries side by side' % (rel, fn.name, len(top)))
+        found.append(bound(top[0]))
+        scope = top[0]
+    if len(found) != want:
+        raise TieBroken('%s:%s: expected %d nested `while <counter> <(=) self.max_retries`, found %d'
+                        % (rel, fn.name, want, len(found)))
+    return tuple(found)
 
 
 def _ticks(v, what):
@@ -131,18 +152,18 @@ def _ticks(v, what):
 
 
 def _rmcp_slice_and_index(fn, rel):
-    """`return rx_data[a:-b]` and `array('B', rx_data)[i] == constants.CMDID_SEND_MESSAGE`."""
+    """`return <name>[a:-b]` and `…[i] == constants.CMDID_SEND_MESSAGE`."""
     rets = [n for n in ast.walk(fn) if isinstance(n, ast.Return) and n.value is not None]
     if len(rets) != 1:
         raise TieBroken('%s:%s: %d return statements' % (rel, fn.name, len(rets)))
     v = rets[0].value
-    ok = (isinstance(v, ast.Subscript) and isinstance(v.value, ast.Name) and v.value.id == 'rx_data'
+    ok = (isinstance(v, ast.Subscript) and isinstance(v.value, ast.Name)
           and isinstance(v.slice, ast.Slice) and v.slice.step is None
           and isinstance(v.slice.lower, ast.Constant)
           and isinstance(v.slice.upper, ast.UnaryOp) and isinstance(v.slice.upper.op, ast.USub)
           and isinstance(v.slice.upper.operand, ast.Constant))
     if not ok:
-        raise TieBroken('%s:%s: return value is not rx_data[a:-b]' % (rel, fn.name))
+        raise TieBroken('%s:%s: return value is not <name>[a:-b]' % (rel, fn.name))
     lo, hi = int(v.slice.lower.value), int(v.slice.upper.operand.value)
     idx = []
     for n in ast.walk(fn):
@@ -156,38 +177,292 @@ def _rmcp_slice_and_index(fn, rel):
     return lo, hi, idx[0]
 
 
+# ======================================================================== shape (tiny loop AST)
+# must list the constructors of `Sym` in lean/PyIpmi/Model/LoopAst.lean
+SYMS = {'CMDID_SEND_MESSAGE', 'IOError', 'IpmbHeaderReq', 'IpmiTimeoutError', 'RetryError', '_dev',
+        '_inc_sequence_number', '_q', '_receive_ipmi_msg', '_receive_raw', '_send_ipmi_msg', '_send_raw', 'array',
+        'cmdid', 'constants', 'decode_bridged_message', 'empty', 'encode_bridged_message', 'encode_ipmb_msg', 'get',
+        'put', 'i2c_slave_read', 'ignore_rq_seq', 'ignore_sdu_length', 'int', 'ipmb_address', 'len', 'max_retries',
+        'netfn', 'next_sequence_number', 'os', 'poll', 'py3_array_tobytes', 'read', 'routing', 'range', 'rq_lun',
+        'rq_sa', 'rq_seq', 'rs_lun', 'rs_sa', 'rx_filter', 'select', 'slave_address', 'sleep', 'socket', 'time',
+        'timeout', 'transaction_lock'}
+_CMP = {ast.LtE: 'le', ast.Lt: 'lt', ast.GtE: 'ge', ast.Gt: 'gt', ast.Eq: 'eq', ast.NotEq: 'ne', ast.Is: 'is_',
+        ast.IsNot: 'isNot', ast.In: 'in_', ast.NotIn: 'notIn'}
+_BIN = {ast.Add: 'add', ast.Sub: 'sub', ast.Mult: 'mul', ast.Mod: 'mod', ast.LShift: 'shl', ast.RShift: 'shr',
+        ast.BitOr: 'bor', ast.BitAnd: 'band', ast.Div: 'div', ast.FloorDiv: 'fdiv'}
+_SCOPES = (ast.ListComp, ast.GeneratorExp, ast.SetComp, ast.DictComp, ast.Lambda, ast.FunctionDef,
+           ast.AsyncFunctionDef, ast.ClassDef)
+
+
+def _crc(n):
+    return zlib.crc32(ast.dump(n).encode('utf-8'))
+
+
+def _sym(name):
+    if name in SYMS:
+        return '.' + (('u' + name) if name.startswith('_') else name)
+    return '(.other %d)' % zlib.crc32(name.encode('utf-8'))
+
+
+def _walk_own(n):
+    """nodes below n that belong to the function's own scope"""
+    yield n
+    for c in ast.iter_child_nodes(n):
+        if not isinstance(c, _SCOPES):
+            for x in _walk_own(c):
+                yield x
+
+
+class Shape(object):
+    """One FunctionDef -> Lean term of type PyIpmi.LoopAst.Fun (syntax-directed, total)."""
+
+    def __init__(self, fn):
+        self.fn = fn
+        a = fn.args
+        self.odd = bool(fn.decorator_list or a.vararg or a.kwarg or a.defaults or a.kwonlyargs
+                        or getattr(a, 'posonlyargs', None))
+        names = [x.arg for x in a.args]
+        self.has_self = bool(names and names[0] == 'self')
+        params = names[1:] if self.has_self else names
+        self.idx = {}
+        for p in params:
+            self.idx.setdefault(p, len(self.idx))
+        self.nparams = len(params)
+        stores = [c for s in fn.body for c in _walk_own(s)
+                  if isinstance(c, ast.Name) and isinstance(c.ctx, (ast.Store, ast.Del))]
+        for n in sorted(stores, key=lambda n: (n.lineno, n.col_offset)):
+            self.idx.setdefault(n.id, len(self.idx))
+
+    # ---- expressions
+    def es(self, l):
+        return 'args[' + ', '.join(self._e(x) for x in l) + ']'
+
+    def e(self, n):
+        s = self._e(n)
+        return s if ' ' not in s else '(' + s + ')'
+
+    def _e(self, n):
+        if isinstance(n, ast.Constant):
+            v = n.value
+            if v is None:
+                return '.none'
+            if v is True:
+                return '.tt'
+            if v is False:
+                return '.ff'
+            if isinstance(v, int) and v >= 0:
+                return '.num %d' % v
+            if isinstance(v, float) and v >= 0:
+                f = Fraction(v).limit_denominator(1 << 20)
+                return '.frac %d %d' % (f.numerator, f.denominator)
+            if isinstance(v, str) and len(v) == 1:
+                return '.chr %d' % ord(v)
+            return '.other %d' % _crc(n)
+        if isinstance(n, ast.Name):
+            if n.id == 'self' and self.has_self:
+                return '.self_'
+            if n.id in self.idx:
+                return '.var %d' % self.idx[n.id]
+            return '.glob ' + _sym(n.id)
+        if isinstance(n, ast.Attribute):
+            return '.attr %s %s' % (self.e(n.value), _sym(n.attr))
+        if isinstance(n, ast.Call):
+            if any(isinstance(a, ast.Starred) for a in n.args) or any(k.arg is None for k in n.keywords):
+                return '.other %d' % _crc(n)
+            args = [self._e(a) for a in n.args] + ['.kw %s %s' % (_sym(k.arg), self.e(k.value)) for k in n.keywords]
+            return '.call %s args[%s]' % (self.e(n.func), ', '.join(args))
+        if isinstance(n, ast.Compare) and len(n.ops) == 1 and type(n.ops[0]) in _CMP:
+            return '.cmp .%s %s %s' % (_CMP[type(n.ops[0])], self.e(n.left), self.e(n.comparators[0]))
+        if isinstance(n, ast.BoolOp) and isinstance(n.op, (ast.And, ast.Or)):
+            k = '.and_' if isinstance(n.op, ast.And) else '.or_'
+            s = self._e(n.values[-1])
+            for v in reversed(n.values[:-1]):
+                s = '%s %s %s' % (k, self.e(v), s if ' ' not in s else '(' + s + ')')
+            return s
+        if isinstance(n, ast.UnaryOp):
+            if isinstance(n.op, ast.Not):
+                return '.not_ ' + self.e(n.operand)
+            if isinstance(n.op, ast.USub) and isinstance(n.operand, ast.Constant) and isinstance(n.operand.value, int) \
+                    and not isinstance(n.operand.value, bool) and n.operand.value >= 0:
+                return '.neg %d' % n.operand.value
+            return '.other %d' % _crc(n)
+        if isinstance(n, ast.BinOp) and type(n.op) in _BIN:
+            return '.bin .%s %s %s' % (_BIN[type(n.op)], self.e(n.left), self.e(n.right))
+        if isinstance(n, ast.Subscript):
+            if isinstance(n.slice, ast.Slice):
+                if n.slice.step is not None:
+                    return '.other %d' % _crc(n)
+                lo = self.e(n.slice.lower) if n.slice.lower is not None else '.none'
+                hi = self.e(n.slice.upper) if n.slice.upper is not None else '.none'
+                return '.slice %s %s %s' % (self.e(n.value), lo, hi)
+            return '.index %s %s' % (self.e(n.value), self.e(n.slice))
+        if isinstance(n, ast.Tuple):
+            return '.tuple ' + self.es(n.elts)
+        if isinstance(n, ast.List):
+            return '.list ' + self.es(n.elts)
+        return '.other %d' % _crc(n)
+
+    # ---- statements
+    def block(self, body, ind):
+        items = [self.s(s, ind + 2) for s in body
+                 if not (isinstance(s, ast.Expr) and isinstance(s.value, ast.Constant) and isinstance(s.value.value, str))]
+        if not items:
+            return 'py[]'
+        pad = ' ' * (ind + 2)
+        return 'py[\n' + ',\n'.join(pad + i for i in items) + ']'
+
+    def _subs(self, n):
+        """outermost subscripts below n in source order (what a logging call can trip over)"""
+        if isinstance(n, _SCOPES):
+            return []
+        if isinstance(n, ast.Subscript):
+            return [n]
+        return [x for c in ast.iter_child_nodes(n) for x in self._subs(c)]
+
+    def s(self, n, ind):
+        if isinstance(n, ast.Expr):
+            v = n.value
+            if isinstance(v, ast.Call) and isinstance(v.func, ast.Attribute) and isinstance(v.func.value, ast.Call) \
+                    and isinstance(v.func.value.func, ast.Name) and v.func.value.func.id == 'log' \
+                    and not v.func.value.args and not v.func.value.keywords:
+                return '.log ' + self.es([c for a in list(v.args) + [k.value for k in v.keywords] for c in self._subs(a)])
+            return '.expr ' + self.e(v)
+        if isinstance(n, ast.Assign) and len(n.targets) == 1:
+            return '.assign %s %s' % (self.e(n.targets[0]), self.e(n.value))
+        if isinstance(n, ast.AugAssign) and type(n.op) in _BIN:
+            return '.aug .%s %s %s' % (_BIN[type(n.op)], self.e(n.target), self.e(n.value))
+        if isinstance(n, ast.If):
+            return '.ite %s %s %s' % (self.e(n.test), self.block(n.body, ind), self.block(n.orelse, ind))
+        if isinstance(n, ast.While):
+            return '.while_ %s %s %s' % (self.e(n.test), self.block(n.body, ind), self.block(n.orelse, ind))
+        if isinstance(n, ast.For):
+            return '.for_ %s %s %s %s' % (self.e(n.target), self.e(n.iter), self.block(n.body, ind),
+                                         self.block(n.orelse, ind))
+        if isinstance(n, ast.Try) and not n.orelse and not n.finalbody and all(h.name is None for h in n.handlers):
+            hs = '.nil'
+            for h in reversed(n.handlers):
+                hs = '(.cons %s %s %s)' % (self.e(h.type) if h.type is not None else '.none', self.block(h.body, ind), hs)
+            return '.try_ %s %s' % (self.block(n.body, ind), hs)
+        if isinstance(n, ast.With) and len(n.items) == 1 and n.items[0].optional_vars is None:
+            return '.with_ %s %s' % (self.e(n.items[0].context_expr), self.block(n.body, ind))
+        if isinstance(n, ast.Break):
+            return '.brk'
+        if isinstance(n, ast.Continue):
+            return '.cont'
+        if isinstance(n, ast.Pass):
+            return '.pass_'
+        if isinstance(n, ast.Raise) and n.cause is None:
+            x = n.exc
+            if x is None:
+                return '.raise .none'
+            if isinstance(x, ast.Call):        # the message is not part of the shape
+                x = x.func
+            if isinstance(x, (ast.Name, ast.Attribute)):
+                return '.raise ' + self.e(x)
+        if isinstance(n, ast.Return):
+            return '.ret ' + (self.e(n.value) if n.value is not None else '.none')
+        if isinstance(n, ast.Assert) and n.msg is None:
+            return '.assert_ ' + self.e(n.test)
+        return '.other %d' % _crc(n)
+
+    def term(self):
+        body = self.block(self.fn.body, 2)
+        if self.odd:
+            body = 'py[\n    .other %d,%s' % (_crc(self.fn.args), body[3:]) if body != 'py[]' else 'py[.other %d]' % _crc(self.fn.args)
+        return '{ params := %d, body := %s }' % (self.nparams, body)
+
+    def legend(self):
+        return ', '.join('%d=%s' % (i, k) for k, i in sorted(self.idx.items(), key=lambda kv: kv[1]))
+
+
+SHAPES = [('rmcpSendAndReceive', 'pyipmi/interfaces/rmcp.py', 'Rmcp', '_send_and_receive'),
+          ('ipmbdevSendAndReceive', 'pyipmi/interfaces/ipmbdev.py', 'IpmbDev', '_send_and_receive'),
+          ('ipmbdevReceiveRaw', 'pyipmi/interfaces/ipmbdev.py', 'IpmbDev', '_receive_raw'),
+          ('aardvarkSendAndReceive', 'pyipmi/interfaces/aardvark.py', 'Aardvark', '_send_and_receive'),
+          ('aardvarkReceiveRaw', 'pyipmi/interfaces/aardvark.py', 'Aardvark', '_receive_raw')]
+
+
+def shapes():
+    """-> [(lean name, source description, variable legend, Lean term)]; never raises on a changed function"""
+    out = []
+    for name, rel, cname, fname in SHAPES:
+        what = '%s.%s (%s)' % (cname, fname, rel)
+        try:
+            tree = ast.parse(repo.read(rel))
+            fn = _fn(_cls(tree, cname, rel), fname, rel)
+        except (TieBroken, SyntaxError, IOError) as e:
+            out.append((name, what, 'NOT FOUND: %s' % e, '{ params := 0, body := py[.other 0] }'))
+            continue
+        sh = Shape(fn)
+        out.append((name, what, sh.legend(), sh.term()))
+    return out
+
+
+# ======================================================================== constants
+# values of the pinned source: written for a constant that cannot be read any more, so that the models and
+# their lemmas keep building and the correspondence run still shows where the changed code differs from the
+# verified loop; `notExtracted` counts them and `Props.C04.gen_loop_shape` demands 0
+PINNED = {'cmdSendMessage': 52, 'rmcpSeqInc': 1, 'rmcpSeqMod': 64, 'rmcpSeqInit': 0, 'rmcpDefaultMaxRetries': 0,
+          'rmcpOuterExtra': 1, 'rmcpInnerExtra': 1, 'rmcpDataLo': 6, 'rmcpDataHi': 1, 'rmcpBridgeIdx': 5,
+          'ipmbdevSeqInc': 1, 'ipmbdevSeqMod': 64, 'ipmbdevSeqInit': 0, 'ipmbdevMaxRetries': 3,
+          'ipmbdevTimeoutTicks': 16, 'ipmbdevAttemptsExtra': 0,
+          'aardvarkSeqInc': 1, 'aardvarkSeqMod': 64, 'aardvarkSeqInit': 0, 'aardvarkMaxRetries': 3,
+          'aardvarkTimeoutTicks': 16, 'aardvarkAttemptsExtra': 0}
+
+
 def extract():
-    vals = {}
+    """-> (vals, problems, missing): every constant of ORDER; one that cannot be read keeps its PINNED value,
+    is listed in `missing` and explained in `problems`"""
+    vals, problems, missing = {}, [], []
+
+    def put(keys, thunk):
+        keys = keys if isinstance(keys, tuple) else (keys,)
+        try:
+            v = thunk()
+            v = v if isinstance(v, tuple) else (v,)
+            for k, x in zip(keys, v):
+                vals[k] = int(x)
+        except TieBroken as e:
+            problems.append(str(e))
+            for k in keys:
+                vals[k] = PINNED[k]
+                missing.append(k)
+        except Exception as e:  # noqa  (source that does not even parse / import)
+            problems.append('%s: %s: %s' % ('/'.join(keys), type(e).__name__, e))
+            for k in keys:
+                vals[k] = PINNED[k]
+                missing.append(k)
+
+    def const_send_message():
+        from pyipmi.msgs import constants
+        return int(constants.CMDID_SEND_MESSAGE)
+
     # ---- rmcp
     rel = 'pyipmi/interfaces/rmcp.py'
-    tree = ast.parse(repo.read(rel))
-    c = _cls(tree, 'Rmcp', rel)
-    vals['rmcpSeqInc'], vals['rmcpSeqMod'] = _seq_rule(c, rel)
-    _uses_seq(c, rel)
-    vals['rmcpSeqInit'] = int(_const(_init_assign(c, 'next_sequence_number', rel), 'rmcp next_sequence_number'))
-    vals['rmcpDefaultMaxRetries'] = int(_init_default(c, 'max_retries', rel))
-    f = _fn(c, '_send_and_receive', rel)
-    vals['rmcpOuterExtra'] = _loop_extra(f, 'retry', rel)
-    vals['rmcpInnerExtra'] = _loop_extra(f, 'received_retry', rel)
-    vals['rmcpDataLo'], vals['rmcpDataHi'], vals['rmcpBridgeIdx'] = _rmcp_slice_and_index(f, rel)
-    try:
-        from pyipmi.msgs import constants
-        vals['cmdSendMessage'] = int(constants.CMDID_SEND_MESSAGE)
-    except Exception as e:  # noqa
-        raise TieBroken('constants.CMDID_SEND_MESSAGE: %s' % e)
+
+    def rmcp_cls():
+        return _cls(ast.parse(repo.read(rel)), 'Rmcp', rel)
+
+    put(('rmcpSeqInc', 'rmcpSeqMod'), lambda: _seq_rule(rmcp_cls(), rel))
+    put('rmcpSeqInit', lambda: int(_const(_init_assign(rmcp_cls(), 'next_sequence_number', rel),
+                                          'rmcp next_sequence_number')))
+    put('rmcpDefaultMaxRetries', lambda: int(_init_default(rmcp_cls(), 'max_retries', rel)))
+    put(('rmcpOuterExtra', 'rmcpInnerExtra'), lambda: _loop_extras(_fn(rmcp_cls(), '_send_and_receive', rel), 2, rel))
+    put(('rmcpDataLo', 'rmcpDataHi', 'rmcpBridgeIdx'),
+        lambda: _rmcp_slice_and_index(_fn(rmcp_cls(), '_send_and_receive', rel), rel))
+    put('cmdSendMessage', const_send_message)
     # ---- ipmb-dev, aardvark
-    for key, rel, cname in (('ipmbdev', 'pyipmi/interfaces/ipmbdev.py', 'IpmbDev'),
-                            ('aardvark', 'pyipmi/interfaces/aardvark.py', 'Aardvark')):
-        tree = ast.parse(repo.read(rel))
-        c = _cls(tree, cname, rel)
-        vals[key + 'SeqInc'], vals[key + 'SeqMod'] = _seq_rule(c, rel)
-        _uses_seq(c, rel)
-        vals[key + 'SeqInit'] = int(_const(_init_assign(c, 'next_sequence_number', rel), key + ' seq init'))
-        vals[key + 'MaxRetries'] = int(_const(_init_assign(c, 'max_retries', rel), key + ' max_retries'))
-        vals[key + 'TimeoutTicks'] = _ticks(_const(_init_assign(c, 'timeout', rel), key + ' timeout'),
-                                            key + ' timeout')
-        vals[key + 'AttemptsExtra'] = _loop_extra(_fn(c, '_send_and_receive', rel), 'retries', rel)
-    return vals
+    for key, rel2, cname in (('ipmbdev', 'pyipmi/interfaces/ipmbdev.py', 'IpmbDev'),
+                             ('aardvark', 'pyipmi/interfaces/aardvark.py', 'Aardvark')):
+        def c(rel2=rel2, cname=cname):
+            return _cls(ast.parse(repo.read(rel2)), cname, rel2)
+        put((key + 'SeqInc', key + 'SeqMod'), lambda: _seq_rule(c(), rel2))
+        put(key + 'SeqInit', lambda: int(_const(_init_assign(c(), 'next_sequence_number', rel2), key + ' seq init')))
+        put(key + 'MaxRetries', lambda: int(_const(_init_assign(c(), 'max_retries', rel2), key + ' max_retries')))
+        put(key + 'TimeoutTicks', lambda: _ticks(_const(_init_assign(c(), 'timeout', rel2), key + ' timeout'),
+                                                 key + ' timeout'))
+        put(key + 'AttemptsExtra', lambda: _loop_extras(_fn(c(), '_send_and_receive', rel2), 1, rel2))
+    return vals, problems, missing
 
 
 ORDER = ['cmdSendMessage', 'rmcpSeqInc', 'rmcpSeqMod', 'rmcpSeqInit', 'rmcpDefaultMaxRetries',
@@ -199,15 +474,27 @@ ORDER = ['cmdSendMessage', 'rmcpSeqInc', 'rmcpSeqMod', 'rmcpSeqInit', 'rmcpDefau
 
 
 def generate():
-    vals = extract()
+    vals, problems, missing = extract()
     out = ['/- GENERATED by harness/translate/loops04.py from pyipmi/interfaces/{rmcp,ipmbdev,aardvark}.py',
            '   of the working tree.  Do not edit: rewritten on every check run. -/',
+           'import PyIpmi.Model.LoopAst',
            'namespace PyIpmi.Gen.Loops04',
+           'open PyIpmi.LoopAst',
+           '',
+           '/-! ## constants -/',
            '',
            '/-- virtual-clock resolution used for the ipmb-dev / Aardvark timeouts -/',
            'def ticksPerSecond : Nat := %d' % TICKS]
     for k in ORDER:
-        out.append('def %s : Nat := %d' % (k, vals[k]))
+        out.append('def %s : Nat := %d%s' % (k, vals[k], '   -- NOT EXTRACTED: value of the pinned source'
+                                             if k in missing else ''))
+    out += ['/-- constants above that could not be read from the working tree -/',
+            'def notExtracted : Nat := %d' % len(missing)]
+    out += ['', '/-! ## shape: the functions themselves, in the syntax of Model/LoopAst.lean -/']
+    for name, what, legend, term in shapes():
+        out += ['', '/-- %s;  variables: %s -/' % (what, legend), 'def %s : Fun :=' % name, '  ' + term]
     out += ['', 'end PyIpmi.Gen.Loops04']
     lean.write_if_changed(OUT, '\n'.join(out) + '\n')
+    if problems:
+        raise TieBroken('; '.join(problems))
     return vals
